@@ -325,6 +325,43 @@ def job_unicode():
     return t
 
 
+def job_wildcards():
+    """Every pattern of length <= 4 over {a, b, *, ?} against every name of length <= 3 over {a, b} (plus upper-case
+    twins): glob(root, pattern) on a root with one child per name must select exactly the names the pattern denotes."""
+    import anytree
+
+    t = core.Tally()
+
+    def run():
+        names = [""] if False else []
+        for k in (1, 2, 3):
+            names += ["".join(x) for x in itertools.product("ab", repeat=k)]
+        names += ["A", "aB", "ABA"]
+        root = anytree.Node("root")
+        kids = [anytree.Node(nm, parent=root) for nm in names]
+        pats = []
+        for k in (1, 2, 3, 4):
+            pats += ["".join(x) for x in itertools.product("ab*?", repeat=k)]
+        pats = [p_ for p_ in pats if is_wild(p_) and p_ != "**"]
+        for ic in (False, True):
+            r = anytree.Resolver("name", ignorecase=ic, relax=True)
+            for pat in pats:
+                got = [nd.name for nd in r.glob(root, pat)]
+                exp = [nm for nm in names if wmatch(nm, pat, ic)]
+                t.c["evaluations"] += 1
+                t.c["wildcard_pattern_checks"] += 1
+                if exp:
+                    t.c["nontrivial"] += 1
+                if got != exp:
+                    t.violation("C08: glob(%r) over all short names selects %s, the pattern denotes %s" % (pat, got, exp),
+                                {"engine": "E2", "module": MOD, "part": "wildcards", "path": pat, "ignorecase": ic, "expected": exp, "observed": got})
+                    return
+        t.c["states"] += 1
+        t.obs(("wildcards", len(pats), len(names)))
+    core.guard(t, "C08", {"engine": "E2", "module": MOD, "part": "wildcards"}, run, _limit=120)
+    return t
+
+
 def job(items, reconf=False):
     t = core.Tally()
     RECONF[0] = reconf
@@ -342,6 +379,7 @@ def job(items, reconf=False):
 E3_NAMES = ("r", "a", "A", "ab", "b", "a")       # tree: r -> (a -> (ab, b), A -> (a))
 E3_SHAPE = (((), ()), ((),))
 E3_MENU = [(p, ic) for p in ("A*", "a*", "a", "A", "?", "**", "*/a", "**/A?") for ic in (False, True)]
+E3_GETS = [("get", "a*", True), ("get", "a*", False), ("get", "?", True)]   # no node is literally named like that: None
 
 
 def _cache():
@@ -373,6 +411,10 @@ def e3_apply(ev, nodes, resolvers):
             resolvers[(False, True)].glob(nodes[0], "f%d*" % k)
         return None
     pat, ic = ev[1], ev[2]
+    if ev[0] == "get":
+        # get() with a component that LOOKS like a pattern (it is a literal for get): whatever get remembers about it
+        # must not leak into glob
+        return resolvers[(ic, True)].get(nodes[0], pat)
     return resolvers[(ic, True)].glob(nodes[0], pat)
 
 
@@ -386,7 +428,7 @@ def e3_explore(depth, first_events):
     idm = tree.IdMap(nodes)
     resolvers = {(ic, rx): anytree.Resolver("name", ignorecase=ic, relax=rx) for ic in (False, True) for rx in (False, True)}
     maxcache = getattr(anytree.resolver, "_MAXCACHE", 20)
-    events = [("glob", p, ic) for p, ic in E3_MENU] + [("fill", k) for k in (maxcache - 2, maxcache - 1, maxcache)]
+    events = [("glob", p, ic) for p, ic in E3_MENU] + [("fill", k) for k in (maxcache - 2, maxcache - 1, maxcache)] + E3_GETS
     expected = {}
     for p, ic in E3_MENU:
         expected[(p, ic)] = Ref(m, E3_NAMES, ic).glob(0, p, "/")
@@ -408,6 +450,13 @@ def e3_explore(depth, first_events):
             key = _cache_key()
             ev = hist[-1]
             t.c["transitions"] += 1
+            if ev[0] == "get":
+                t.c["evaluations"] += 1
+                t.c["get_calls_in_cache_histories"] += 1
+                if out is not None:
+                    t.violation("C08: relaxed get(%r) returns a node although no child has that literal name (history-dependent)" % ev[1],
+                                {"engine": "E3", "module": MOD, "part": "cache", "history": [list(e) for e in hist],
+                                 "expected": None, "observed": idm(out)})
             if ev[0] == "glob":
                 t.c["evaluations"] += 1
                 got = idm.seq(out)
@@ -442,7 +491,7 @@ def e3_events():
     import anytree
 
     maxcache = getattr(anytree.resolver, "_MAXCACHE", 20)
-    return [("glob", p, ic) for p, ic in E3_MENU] + [("fill", k) for k in (maxcache - 2, maxcache - 1, maxcache)]
+    return [("glob", p, ic) for p, ic in E3_MENU] + [("fill", k) for k in (maxcache - 2, maxcache - 1, maxcache)] + E3_GETS
 
 
 def _tup(x):
@@ -453,6 +502,8 @@ def replay(c):
     t = core.Tally()
     if c.get("part") == "unicode":
         return [v["why"] for v in job_unicode().violations]
+    if c.get("part") == "wildcards":
+        return [v["why"] for v in job_wildcards().violations]
     if c.get("part") == "cache":
         import anytree
 
@@ -465,6 +516,9 @@ def replay(c):
         hist = _tup(c["history"])
         for ev in hist:
             out = e3_apply(ev, nodes, resolvers)
+        if hist[-1][0] == "get":
+            print("history:", hist, "observed:", idm(out), "expected: None")
+            return ["relaxed get returns a node although no child has that literal name (history-dependent)"] if out is not None else []
         exp = Ref(m, E3_NAMES, hist[-1][2]).glob(0, hist[-1][1], "/")
         got = idm.seq(out)
         print("history:", hist, "observed:", got, "expected:", sorted(exp))
@@ -512,7 +566,7 @@ def run(tier):
     t = core.Tally()
     pool = core.Pool(0)
     try:
-        pool.run([(MOD, "job", {"items": c}) for c in core.chunks(items[::-1], core.NPROC * 12)] + [("mc.capacity", "job", {"pid": "C08"}), ("mc.positional", "job", {"pid": "C08"}), (MOD, "job_unicode", {})], into=t)
+        pool.run([(MOD, "job", {"items": c}) for c in core.chunks(items[::-1], core.NPROC * 12)] + [("mc.capacity", "job", {"pid": "C08"}), ("mc.positional", "job", {"pid": "C08"}), (MOD, "job_unicode", {}), (MOD, "job_wildcards", {})], into=t)
         sem_states = t.c["states"]
         events = pool.call(MOD, "e3_events")
         depth = 4 if tier == "quick" else 5
@@ -535,7 +589,7 @@ def run(tier):
         "bounds": {"semantic_trees": len(items), "semantic_states": sem_states, "history_depth": depth, "cache_states": t.c["states"] - sem_states},
     }
     return {"tally": t, "coverage": cov,
-            "guards": ("non_ascii_agreement_checks", "positional_calls", "reconfigured_resolver_trees", "capacity_checks", "nontrivial", "many_matches", "strict_raises:ChildResolverError", "strict_raises:RootResolverError",
+            "guards": ("wildcard_pattern_checks", "get_calls_in_cache_histories", "non_ascii_agreement_checks", "positional_calls", "reconfigured_resolver_trees", "capacity_checks", "nontrivial", "many_matches", "strict_raises:ChildResolverError", "strict_raises:RootResolverError",
                        "strict_raises:ResolverError", "get_agreement_checked", "calls_after_fill", "calls_after_colliding_pattern",
                        "states_with_full_cache", "merged_states"),
             "assumptions": ["'**' directly after the leading separator is excluded (the statement does not say whether the root "
